@@ -9,6 +9,7 @@
 import TfelVerif.Common.M3
 import TfelVerif.C23.Spec
 import TfelVerif.C23.Lemmas
+import TfelVerif.C23.Lemmas2
 import TfelVerif.C23.GenN3Chains
 import TfelVerif.C23.PropsN3_ABAQUS__SPATIAL_MODULI
 import TfelVerif.C23.PropsN3_C_TAU_JAUMANN__DTAU_DF
